@@ -63,8 +63,14 @@ fn adversarial_keys(seed: u64, full: bool) -> Vec<[u8; 32]> {
 pub fn run(tier: Tier, seed: u64) -> i32 {
     let report = Report::new("C14", tier, seed, "model_checking");
     let n = srp::n_builtin();
-    let full = tier == Tier::Thorough;
-    let keys = adversarial_keys(seed, full);
+    let full = true; // the whole alphabet costs a few seconds, so both tiers use it
+    let mut keys = adversarial_keys(seed, full);
+    if tier == Tier::Thorough {
+        for i in 0..64 {
+            keys.push(refmodel::ctr_array::<32>(seed, &format!("c14-extra-{i}")));
+        }
+        keys.retain(|k| PublicKey::from_le_bytes(*k).is_ok());
+    }
     let calls = AtomicU64::new(0);
     let refused = AtomicU64::new(0);
     let accepted = AtomicU64::new(0);
@@ -324,7 +330,7 @@ pub fn run(tier: Tier, seed: u64) -> i32 {
         }
     }
     hacts.push(HA::Raw(0, 0));
-    let depth = tier.pick(3usize, 4usize);
+    let depth = tier.pick(4usize, 6usize);
     let key = refmodel::ctr_array::<40>(seed, "c14-hkey");
     let (_, cd) = ciphers::wrath_client(&key).split();
     let r = bfs(vec![(cd, 0u32)], &hacts, Some(depth), |s, a| {
